@@ -1,7 +1,7 @@
 package world
 
 import (
-	"syscall"
+
 	"path/filepath"
 	"os/exec"
 	"context"
@@ -103,6 +103,7 @@ type APIServer struct {
 	cancel context.CancelFunc
 	Dir    string
 	proc   *exec.Cmd // external mode: the real dirk binary
+	exited chan struct{}
 }
 
 // StartAPIServer builds a world (wallets W1 for client c1, W2 for client c2, distributed wallet DW for both) and
@@ -197,7 +198,7 @@ func StartAPIServerMode(ctx context.Context, log *Log, mode string) (*APIServer,
 func (a *APIServer) Stop(ctx context.Context) {
 	if a.proc != nil {
 		_ = a.proc.Process.Kill()
-		_, _ = a.proc.Process.Wait()
+		<-a.exited
 		os.RemoveAll(a.Dir)
 		return
 	}
@@ -223,7 +224,7 @@ func (a *APIServer) Alive() bool {
 	if a.proc == nil {
 		return true
 	}
-	return a.proc.ProcessState == nil && syscall.Kill(a.proc.Process.Pid, 0) == nil
+	return !hasExited(a.exited)
 }
 
 // StartExternalDirk prepares what the SHIPPED PROGRAM needs on disk - a filesystem wallet store with the same population as the
@@ -316,20 +317,10 @@ permissions:
 	if err := cmd.Start(); err != nil {
 		return nil, err
 	}
-	a := &APIServer{Addr: addr, PKI: pki, Other: other, Dir: base, proc: cmd, B: xb}
-	deadline := time.Now().Add(20 * time.Second)
-	for {
-		c, err := net.DialTimeout("tcp", addr, 200*time.Millisecond)
-		if err == nil {
-			_ = c.Close()
-			break
-		}
-		if time.Now().After(deadline) {
-			out, _ := os.ReadFile(filepath.Join(base, "dirk.stderr"))
-			a.Stop(ctx)
-			return nil, fmt.Errorf("the dirk binary did not start listening on %s: %s", addr, string(out))
-		}
-		time.Sleep(50 * time.Millisecond)
+	a := &APIServer{Addr: addr, PKI: pki, Other: other, Dir: base, proc: cmd, B: xb, exited: watchProc(cmd)}
+	if err := waitOurServer(addr, a.exited, filepath.Join(base, "dirk.stderr"), pki, other); err != nil {
+		a.Stop(ctx)
+		return nil, err
 	}
 	return a, nil
 }
